@@ -259,24 +259,24 @@ def jump_theorem(K, m):
         st = 'StagnationShock ic %d (s.e ic.rho_0 ic.P_0) ρ (s.P ρ x) x D' % m
         what = 'unknowns (ρ, e, D), shocked pressure P(ρ, e)'
     o = []
+    shock = 'shockedState ρ %s' % ('x (s.e ρ x)' if K == 'Energy' else '(s.P ρ x) x')
+    inc = 'incomingState ic %d (s.e ic.rho_0 ic.P_0) D' % m
+    o.append('/-- `%s`, symmetry %d: the defects of the three jump conditions (flux behind minus flux ahead of the front)\nare these fixed combinations of the components of `F` — exact identities, any EOS -/' % (c['py'], m))
+    o.append('theorem %s_jump_defects (s : EOS) (ic : NohIC) (ρ x D : ℝ) (hic : ic.Admissible %d) (hρ : ρ ≠ 0) (hD : D ≠ 0) :' % (lo, m))
+    o.append('    (%s).massFlux D - (%s).massFlux D = -D * C16.%s.F s ic ρ x D 0' % (shock, inc, ns))
+    o.append('    ∧ (%s).momFlux D - (%s).momFlux D = C16.%s.F s ic ρ x D 1 - ic.u_0 * D * C16.%s.F s ic ρ x D 0' % (shock, inc, ns, ns))
+    o.append('    ∧ (%s).energyFlux D - (%s).energyFlux D = -(ρ * D) * C16.%s.F s ic ρ x D 2' % (shock, inc, ns))
+    o.append('        - D * (s.e ic.rho_0 ic.P_0 + ic.u_0 ^ 2 / 2) * C16.%s.F s ic ρ x D 0 := by' % ns)
+    o += kfacts(K, m)
+    S = 'simp only [C16.%s.F, shockedState, incomingState, State.massFlux, State.momFlux, State.energyFlux, epv_c16, epv_tree, epv_cond, epv_leaf, hρ, %s, %s]' % (ns, SIMPK, MAT)
+    o.append('  refine ⟨?_, ?_, ?_⟩ <;>')
+    o.append('    (' + S + ' <;> field_simp <;> ring)')
+    o.append('')
     o.append('/-- `%s`, symmetry %d (%s): the residual vanishes exactly when the shocked state at rest and the\nincoming gas (density ρ₀ (1 - u₀/D)^%d at the front) satisfy the three Rankine–Hugoniot conditions with front speed D -/' % (c['py'], m, what, m))
     o.append('theorem %s_zero_iff_jump (s : EOS) (ic : NohIC) (ρ x D : ℝ) (hic : ic.Admissible %d) (hρ : ρ ≠ 0) (hD : D ≠ 0) :\n    (∀ i, C16.%s.F s ic ρ x D i = 0) ↔ %s := by' % (lo, m, ns, st))
-    o += kfacts(K, m)
-    o.append('  set a := shockedState ρ %s with ha' % ('x (s.e ρ x)' if K == 'Energy' else '(s.P ρ x) x'))
-    o.append('  set b := incomingState ic %d (s.e ic.rho_0 ic.P_0) D with hb' % m)
-    S = 'simp only [C16.%s.F, ha, hb, shockedState, incomingState, State.massFlux, State.momFlux, State.energyFlux, epv_c16, epv_tree, epv_cond, epv_leaf, hρ, %s, %s]' % (ns, SIMPK, MAT)
-    o.append('  have hM : a.massFlux D - b.massFlux D = -D * C16.%s.F s ic ρ x D 0 := by' % ns)
-    o.append('    ' + S)
-    o.append('    field_simp')
-    o.append('    ring')
-    o.append('  have hMo : a.momFlux D - b.momFlux D = C16.%s.F s ic ρ x D 1 - ic.u_0 * D * C16.%s.F s ic ρ x D 0 := by' % (ns, ns))
-    o.append('    ' + S)
-    o.append('    field_simp')
-    o.append('    ring')
-    o.append('  have hE : a.energyFlux D - b.energyFlux D = -(ρ * D) * C16.%s.F s ic ρ x D 2\n      - D * (s.e ic.rho_0 ic.P_0 + ic.u_0 ^ 2 / 2) * C16.%s.F s ic ρ x D 0 := by' % (ns, ns))
-    o.append('    ' + S)
-    o.append('    field_simp')
-    o.append('    ring')
+    o.append('  obtain ⟨hM, hMo, hE⟩ := %s_jump_defects s ic ρ x D hic hρ hD' % lo)
+    o.append('  set a := %s with ha' % shock)
+    o.append('  set b := %s with hb' % inc)
     o.append('  unfold StagnationShock RankineHugoniot')
     o.append('  constructor')
     o.append('  · intro h')
